@@ -183,6 +183,8 @@ def cmd_seeded(only):
 def cmd_benign(only):
     """property-preserving changes (/verif/benign/*.diff): every check must stay green (exit 0), regression replays included"""
     allprops = ["C%02d" % i for i in range(1, 21)]
+    if os.environ.get("BENIGN_PROPS"):  # re-run of the checks that changed since the last full run
+        allprops = os.environ["BENIGN_PROPS"].split(",")
     for f in sorted(glob.glob(os.path.join(V, "benign", "*.diff"))):
         name = os.path.basename(f)[:-5]
         if only and name not in only:
@@ -195,6 +197,10 @@ def cmd_benign(only):
                 continue
             ok, tail = baseline(d)
             rec = {"kind": "benign", "id": name, "baseline_passes": ok, "checks": {}}
+            if os.environ.get("BENIGN_PROPS") and os.path.exists(RESULTS):  # keep the earlier results of the other checks
+                for old in json.load(open(RESULTS)):
+                    if old.get("kind") == "benign" and old.get("id") == name:
+                        rec["checks"] = dict(old.get("checks") or {})
             for p in allprops:
                 env = dict(os.environ, VERIF_REPO=d, VERIF_SEED="0")
                 t0 = time.time()
